@@ -585,11 +585,129 @@ REVIEWED_CURSOR = {
 }
 
 
+def parse_parsable_tabulation(ctx, report):
+    """ParserBase.parse_parsable (with the helper methods and properties it uses; the numeric read replaced by a model that
+    reads a big-endian number or raises NotEnoughData) evaluated at offsets 0 and 3, without a length prefix and with prefixes
+    of 1, 2 and 4 bytes, for every declared length 0..5 against 0..declared+2 bytes present: the cursor moves by exactly
+    what was consumed (nested report, resp. prefix + declared length), the item parser sees exactly the declared bytes, a
+    short buffer raises NotEnoughData with the number of missing bytes and leaves cursor and values untouched.
+    Returns the qualified names of the functions decided this way (empty when not evaluable)"""
+    from ..miniexec import Evaluator, ExcVal, Native, NativeError, Obj, Raised, Unsupported, class_call_hook, exception_values
+    c = ctx.model.try_cls('ParserBase')
+    f = c.methods.get('parse_parsable') if c is not None else None
+    if f is None:
+        report.error('C03.R4: ParserBase.parse_parsable vanished')
+        return set()
+
+    class NotEnoughData(NativeError):
+        pass
+
+    class Parser(Native):
+        _repo_class = c
+
+        def __init__(self, data, offset):
+            self._parsable, self._parsed_length, self._parsed_values = data, offset, {}
+
+        def _parse_numeric_array(self, name, item_num, item_size, item_class):
+            need = item_num * item_size
+            have = len(self._parsable) - self._parsed_length
+            if need > have:
+                raise NotEnoughData(need - have)
+            vals = [int.from_bytes(self._parsable[self._parsed_length + i * item_size:self._parsed_length + (i + 1) * item_size], 'big') for i in range(item_num)]
+            return vals, need
+    seen = {}
+
+    class Item(Native):
+        def parse_immutable(self, data):
+            data = bytes(data)
+            seen['immutable'] = data
+            if len(data) < 2:
+                raise NotEnoughData(2 - len(data))
+            return ('object', data[:2]), 2
+
+        def parse_exact_size(self, data):
+            seen['exact'] = bytes(data)
+            return ('object', bytes(data))
+    exc = exception_values('NotEnoughData', 'InvalidValue', 'TooMuchData')
+    hook = class_call_hook(c, exc, ctx.model)
+    params = [a.arg for a in f.node.args.args if a.arg != 'self']
+    bad, runs = [], 0
+
+    def missing(e):
+        v = e.value
+        if isinstance(v, ExcVal) and v.name == 'NotEnoughData':
+            return v.args[0] if v.args else v.kwargs.get('bytes_needed')
+        return None
+    try:
+        for offset in (0, 3):
+            for item_size in (None, 1, 2, 4):
+                for declared in range(0, 6):
+                    for present in range(0, declared + 3):
+                        runs += 1
+                        body = bytes(range(0x41, 0x41 + present))
+                        prefix = b'' if item_size is None else declared.to_bytes(item_size, 'big')
+                        for cut in ([len(prefix)] if item_size is None else sorted({0, len(prefix) - 1, len(prefix)})):
+                            data = b'\xee' * offset + prefix[:cut] + (body if cut == len(prefix) else b'')
+                            me = Parser(data, offset)
+                            seen.clear()
+                            env = dict(zip(params, ['field', Item(), item_size]))
+                            env['self'] = me
+                            try:
+                                Evaluator(env, hook, None).function(f.node)
+                                raised = None
+                            except Raised as e:
+                                raised = e
+                            have = len(data) - offset
+                            if item_size is None:
+                                want_ok, want_missing, want_adv = have >= 2, 2 - have, 2
+                            elif cut < len(prefix):
+                                want_ok, want_missing, want_adv = False, len(prefix) - have, None
+                            else:
+                                want_ok, want_missing, want_adv = present >= declared, item_size + declared - have, item_size + declared
+                            what = 'prefix of %s bytes, %d declared, %d of the input present' % (item_size, declared, have)
+                            if want_ok:
+                                if raised is not None:
+                                    bad.append('%s: raises %s' % (what, raised.what[:60]))
+                                elif me._parsed_length != offset + want_adv:
+                                    bad.append('%s: the cursor moves by %d instead of %d' % (what, me._parsed_length - offset, want_adv))
+                                elif item_size is not None and seen.get('exact') != body[:declared]:
+                                    bad.append('%s: the item parser is handed %r instead of the %d declared bytes' % (what, seen.get('exact'), declared))
+                                elif 'field' not in me._parsed_values:
+                                    bad.append('%s: the parsed object is not stored' % what)
+                            else:
+                                if raised is None:
+                                    bad.append('%s: accepted although %d bytes are missing' % (what, want_missing))
+                                elif missing(raised) != want_missing and 'NotEnoughData' in raised.what:
+                                    bad.append('%s: NotEnoughData carries %r, %d bytes are missing' % (what, missing(raised), want_missing))
+                                elif 'NotEnoughData' not in raised.what:
+                                    bad.append('%s: raises %s instead of NotEnoughData' % (what, raised.what[:40]))
+                                elif me._parsed_length != offset or me._parsed_values:
+                                    bad.append('%s: the failed call moved the cursor / stored a value' % what)
+    except Unsupported as e:
+        report.undecided.append('C03.R4: ParserBase.parse_parsable left the subset the evaluation understands (%s); decided on its syntax' % e)
+        return set()
+    report.count('C03.R4', runs)
+    if bad:
+        report.add('C03.R4', f.construct + '@tabulation', '%d of %d evaluated calls: %s' % (len(bad), runs, bad[0]))
+    else:
+        report.sample({'rule': 'C03.R4', 'site': f.construct, 'verdict': 'evaluated', 'runs': runs})
+    decided = {f.qualname}
+    for n in ast.walk(f.node):
+        if isinstance(n, ast.Call) and isinstance(n.func, ast.Attribute) and isinstance(n.func.value, ast.Name) and n.func.value.id in ('self', 'cls'):
+            m = c.resolve(n.func.attr)
+            if m is not None and m.cls is c and m.name != '_parse_numeric_array':
+                decided.add(m.qualname)
+    return decided
+
+
 def cursor_writes(ctx, report):
     model = ctx.model
+    evaluated = parse_parsable_tabulation(ctx, report)
     for cname in ('ParserBase', 'ParserText', 'ParserBinary'):
         c = model.cls(cname)
         for name, f in c.methods.items():
+            if f.qualname in evaluated:
+                continue
             for st in ast.walk(f.node):
                 tgt = None
                 if isinstance(st, ast.AugAssign):
